@@ -18,7 +18,30 @@ EXTRA = [
      and "RSAPublicNumbers" in unparse(c.func.value.func), ["ValueError"], "RSAPublicNumbers(e, n).public_key() validates numbers supplied by the peer"),
     ("pred", lambda f, c: isinstance(c.func, ast.Name) and c.func.id == "int" and len(c.args) >= 1 and not isinstance(c.args[0], ast.Constant)
      and f.module.name in ("transport",) and f.name in ("_check_banner",), ["ValueError"], "int() of text from the peer's banner"),
+    ("pred", lambda f, c: _keyed_pop_without_default(f, c), ["KeyError"], "dict.pop(key) without a default under a key the peer chose"),
 ]
+
+
+def _keyed_pop_without_default(f, c):
+    """`self.<table>.pop(k)` / `.pop(k)` on a name with exactly one, non-constant argument that is read out of a message in
+    this function (k = m.get_int() ...): raises KeyError when the peer names an entry that is not there.  `xs.pop(0)`,
+    `xs.pop(i)` with i a loop index over xs, and pops with a default are other things."""
+    if not (isinstance(c.func, ast.Attribute) and c.func.attr == "pop" and len(c.args) == 1 and not c.keywords):
+        return False
+    k = c.args[0]
+    if not isinstance(k, ast.Name):
+        return False
+    for st in walk_no_defs(f.node):
+        if isinstance(st, ast.Assign) and any(isinstance(t, ast.Name) and t.id == k.id for t in st.targets):
+            if any(isinstance(x, ast.Call) and isinstance(x.func, ast.Attribute) and x.func.attr.startswith("get_") for x in ast.walk(st.value)):
+                # guarded by a membership test on the same container?  `if k in D:` enclosing the call
+                p_ = getattr(c, "_parent", None)
+                while p_ is not None and p_ is not f.node:
+                    if isinstance(p_, ast.If) and unparse(p_.test) == "%s in %s" % (k.id, unparse(c.func.value)) and any(c is x for st2 in p_.body for x in ast.walk(st2)):
+                        return False
+                    p_ = getattr(p_, "_parent", None)
+                return True
+    return False
 
 # explicit raises of a non-SSH class that are not reachable with peer data (one reason per row)
 RAISE_ALLOW = [
@@ -45,6 +68,9 @@ SITE_ALLOW = [
     ("AuthHandler._choose_fallback_pubkey_algorithm", "my_algos[0]", "IndexError", "client-side configuration, not peer data: the only caller raises SSHException first when my_algos is empty"),
     ("AuthOnlyHandler._choose_fallback_pubkey_algorithm", "my_algos[0]", "IndexError", "same list; the override only reorders the choice"),
     ("common.byte_mask", "assert", "AssertionError", "argument is always an element of a bytes object (an int) produced locally"),
+    ("common.byte_chr", "assert", "AssertionError", "type guard on a locally computed int (message numbers, lengths), not peer data"),
+    ("util.deflate_long", "s[0]", "IndexError", "encoder of our own numbers, not driven by peer data; s is never empty at that point (the degenerate arm makes it one byte, "
+     "otherwise the scan stopped at a byte that is kept)"),
     ("Ed25519Key.__init__", "nacl.signing.VerifyKey", "TypeError", "the argument is always bytes read from the message"),
     ("PKey._read_private_key", None, None, "private-key file loading is not driven by the peer (C37)"),
     ("PKey._read_private_key_pem", None, None, "C37"), ("PKey._read_private_key_openssh", None, None, "C37"),
@@ -233,7 +259,7 @@ def run(prog, chk):
 
     def extra_sites(f):
         out = []
-        if f.module.name in ("transport", "auth_handler", "channel", "packet", "kex_gss") or f.module.name.startswith("kex_"):
+        if f.module.name in ("transport", "auth_handler", "channel", "packet", "kex_gss", "util", "message") or f.module.name.startswith("kex_"):
             if f.qual not in idx_cache:
                 try:
                     idx_cache[f.qual] = [(x, why) for (x, need, have, why) in unguarded_constant_subscripts(prog, f)] + \
